@@ -25,6 +25,7 @@ from vlib import core
 HERE = os.path.dirname(os.path.abspath(__file__))
 sys.path.insert(0, HERE)
 import gen  # noqa: E402
+import compopt  # noqa: E402  (leg "compressor configuration and options block", coq/CompOpt)
 
 LEVEL = "proof"
 TIMEOUT = 10
@@ -62,7 +63,7 @@ def regen_gen_c05():
         shutil.rmtree(d, ignore_errors=True)
 
 
-GEN_ERR = regen_gen_c05()
+GEN_ERR = regen_gen_c05() or compopt.regen()
 
 
 # --------------------------------------------------------------------------
@@ -508,6 +509,12 @@ def run(ctx):
     rnd = random.Random(ctx.seed)
     if ctx.replay:
         r = json.load(open(ctx.replay))
+        if r.get("leg") == "compopt":
+            st = compopt.run_leg(ctx, e.info, e.env, random.Random(ctx.seed), replay=r.get("cases") or [r["case"]])
+            ctx.coverage["evaluations"] = st.get("cases", 0)
+            ctx.coverage["rule"] = "replay of " + ctx.replay
+            ctx.coverage["distinct_nontrivial"] = 1
+            return
         img = base64.b64decode(r["image_b64"]) if r.get("image_b64") else None
         viol = []
         if img is not None:
@@ -527,6 +534,8 @@ def run(ctx):
         ctx.coverage["distinct_nontrivial"] = 1
         report(ctx, viol)
         return
+    co = compopt.run_leg(ctx, e.info, e.env, random.Random(ctx.seed * 7919 + 5))
+    ctx.log("compressor options leg: %s" % co)
     t0 = time.time()
     cases = list(gen.field_cases(rnd, ctx.tier)) + list(gen.loop_cases(rnd)) + list(gen.xattr_cases(rnd, ctx.tier))
     mh = list(gen.meta_header_cases(rnd, ctx.tier))
@@ -602,7 +611,9 @@ def run(ctx):
         nontriv |= st["nontrivial"]
         for k, n in st["err_classes"].items():
             errc[k] = errc.get(k, 0) + n
-    ctx.coverage["evaluations"] = tot["runs"] + nmeta
+    ctx.coverage["evaluations"] = tot["runs"] + nmeta + co.get("cases", 0)
+    ctx.coverage["traces_validated_against_impl_compopt"] = co.get("agree", 0)
+    ctx.coverage["compopt"] = co
     ctx.coverage["distinct_nontrivial"] = len(nontriv)
     ctx.coverage["traces_validated_against_impl"] = tot["agree"]
     ctx.coverage["rule"] = (
@@ -611,7 +622,12 @@ def run(ctx):
         "with %d byte/bit/word mutants biased to super block, location lists, metadata headers; seed %d. Each image: 3 harness "
         "modes + up to 11 tool runs under ASan/UBSan, 10 s time-out; transcripts of modes all/xattr compared exactly with the "
         "extracted model when only gzip is needed. distinct_nontrivial = distinct images whose model transcript gets past the "
-        "super block (reader stack exercised)." % (nfield, len(reals), nmut, ctx.seed))
+        "super block (reader stack exercised). Compressor options leg (coq/CompOpt): %d cases (config_init, -X option strings "
+        "with every key at min-1/min/max/max+1 and malformed numbers / suffixes, raw configurations incl. dictionary size shapes "
+        "and padding, hostile option blocks: truncated, wrong header size, compressed bit, fields at the range ends; whole "
+        "opening sequences) through the real config_init / compressor_cfg_init_options / create / write_options / read_options / "
+        "get_configuration, compared exactly with the extracted model; plus the format-level reading of every written block." % (
+            nfield, len(reals), nmut, ctx.seed, co.get("cases", 0)))
     ctx.coverage["distribution"] = dict(images=len(cases) + len(real_cases) + 1, transcripts_compared=tot["compared"],
                                         transcripts_equal=tot["agree"], not_comparable_other_codec=tot["unk"],
                                         images_with_full_tree=tot["tree_ok"], tool_runs=tot["tool_runs"],
@@ -625,3 +641,4 @@ def run(ctx):
 def setup():
     core.build_model_driver("C05", "ExtractC05.v", os.path.join(HERE, "driver.ml"),
                             stubs_c=os.path.join(HERE, "stubs.c"), cclibs=["-lz"])
+    core.build_model_driver("C05CompOpt", "ExtractC05CompOpt.v", os.path.join(HERE, "compopt", "driver.ml"))
